@@ -108,52 +108,98 @@ def _feeds_control_or_address(f, L, limit=60):
     return False
 
 
+def _owned_helpers(mod, f):
+    """internal functions called (transitively) from f and from nowhere else: blocks of f that were moved into static helpers; yields (helper, call site in its caller, caller)"""
+    out = []
+    owned = {f.name}
+    work = [f]
+    while work:
+        g = work.pop()
+        for c in g.calls():
+            h = mod.funcs.get(c.callee or "")
+            if h is None or not h.internal or h.name in owned:
+                continue
+            if all(x.fn.name in owned for x in mod.callers.get(h.name, [])):
+                owned.add(h.name)
+                out.append((h, c, g))
+                work.append(h)
+    return out
+
+
 def rule_gemv_offsets(mod, rep):
     rep.rule("VEC-OFF", "sp_?gemv: a strided cursor that starts at k = -(len-1)*inc for a negative increment walks a loop whose trip count is that same len "
-             "(the start offset of y is computed from y's own length)", floor=4)
+             "(the start offset of y is computed from y's own length); loops moved into a static helper are followed through the call", floor=4)
     from .threads import loop_bound
-    for prec, f in fam(mod, "sp_?gemv"):
-        rep.scope([f.name])
-        n = 0
-        bad = []
-        for h, body in f.loops():
-            lb = loop_bound(f, h, body)
+
+    def lens_of(g, start):
+        lens = []
+        for x in expr_insts(g, start):
+            if x.op == "mul":
+                for y in x.ops:
+                    y = strip_casts(g, y)
+                    if y[0] == "v" and g.inst[y[1]].op == "sub" and is_const(g.inst[y[1]].ops[0], 0):
+                        y = strip_casts(g, g.inst[y[1]].ops[1])      # unary minus
+                    if y[0] == "v" and g.inst[y[1]].op == "sub" and is_const(g.inst[y[1]].ops[1], 1):
+                        lens.append(strip_casts(g, g.inst[y[1]].ops[0]))
+        return lens
+
+    def cursors(g):
+        out = []
+        for h, body in g.loops():
+            lb = loop_bound(g, h, body)
             if not lb:
                 continue
-            bound = strip_casts(f, lb[2])
-            if bound[0] != "v" or f.inst[bound[1]].op != "phi":
-                continue
-            # cursors: header phis (other than the counter) stepping by a parameter
-            for ph in f.blocks[h].insts:
+            bound = strip_casts(g, lb[2])
+            for ph in g.blocks[h].insts:
                 if ph.op != "phi" or ph.i == lb[0].i or not ph.ty.startswith("i"):
                     continue
                 step_param = None; start = None
                 for o, b in zip(ph.ops, ph.inb):
-                    o = strip_casts(f, o)
-                    if b in body and o[0] == "v" and f.inst[o[1]].op == "add":
-                        for x in f.inst[o[1]].ops:
-                            x = strip_casts(f, x)
+                    o = strip_casts(g, o)
+                    if b in body and o[0] == "v" and g.inst[o[1]].op == "add":
+                        for x in g.inst[o[1]].ops:
+                            x = strip_casts(g, x)
                             if x[0] == "a":
                                 step_param = x[1]
                     elif b not in body:
                         start = o
-                if step_param is None or start is None:
+                if step_param is not None and start is not None:
+                    out.append((ph, start, bound))
+        return out
+
+    for prec, f in fam(mod, "sp_?gemv"):
+        rep.scope([f.name])
+        n = 0
+        bad = []
+        for (ph, start, bound) in cursors(f):
+            if bound[0] != "v" or f.inst[bound[1]].op != "phi":
+                continue
+            lens = lens_of(f, start)
+            if not lens:
+                continue
+            n += 1
+            if not all(same_val(l, bound) for l in lens):
+                bad.append(ph)
+        for (h, call, g) in _owned_helpers(mod, f):
+            if g is not f:
+                continue            # one level is what extraction produces
+            rep.scope([h.name])
+            for (ph, start, bound) in cursors(h):
+                lens = lens_of(h, start)
+                if lens:
+                    # the helper computes the start itself from its own parameters
+                    n += 1
+                    if not all(same_val(l, bound) for l in lens):
+                        bad.append(ph)
                     continue
-                # start expression: contains mul(sub(len,1), inc)
-                lens = []
-                for x in expr_insts(f, start):
-                    if x.op == "mul":
-                        for y in x.ops:
-                            y = strip_casts(f, y)
-                            if y[0] == "v" and f.inst[y[1]].op == "sub" and is_const(f.inst[y[1]].ops[0], 0):
-                                y = strip_casts(f, f.inst[y[1]].ops[1])      # unary minus
-                            if y[0] == "v" and f.inst[y[1]].op == "sub" and is_const(f.inst[y[1]].ops[1], 1):
-                                lens.append(strip_casts(f, f.inst[y[1]].ops[0]))
-                if not lens:
-                    continue
-                n += 1
-                if not all(same_val(l, bound) for l in lens):
-                    bad.append(ph)
+                if start[0] == "a" and bound[0] == "a" and start[1] < len(call.ops) and bound[1] < len(call.ops):
+                    cs = strip_casts(f, call.ops[start[1]]); cb = strip_casts(f, call.ops[bound[1]])
+                    lens = lens_of(f, cs)
+                    if not lens:
+                        continue
+                    n += 1
+                    if not all(same_val(l, cb) for l in lens):
+                        bad.append(ph)
         rep.check(not bad and n > 0, "VEC-OFF", "%s#start-offsets" % f.name, "%d strided cursors start at -(len-1)*inc with their own loop length" % n,
                   "a strided vector cursor starts at an offset computed from the other vector's length" if bad else "no strided cursor found", bad[0].loc if bad else f.file, f.name)
 
